@@ -121,6 +121,12 @@ def check_pair(query, doc):
 
 
 def check_case(case):
+    if "stack_case" in case:
+        sh = run_stack(Shard(PROPERTY))
+        for v in sh.violations:
+            if v["case"] == case:
+                return v
+        return None
     return check_pair(case["query"], impl.unjsonable(case["doc"]))
 
 
@@ -148,6 +154,7 @@ def shards(tier):
     out = [{"part": "struct", "i": i, "tier": tier} for i in range(len(c01.SEGMENTS))]
     out += [{"part": "filter", "i": i, "tier": tier} for i in range(len(c02.U_SMALL))]
     out += [{"part": "invalid", "tier": tier}]
+    out += [{"part": "stack", "tier": tier}]
     return out
 
 
@@ -174,8 +181,72 @@ def queries(desc):
         yield "$[?@ == $[0]]"
 
 
+def chain_doc(n):
+    cur = 1
+    for _ in range(n):
+        cur = {"a": cur}
+    return cur
+
+
+def stack_cases():
+    """(query, document, environment paths only?) far away from the interpreter's recursion limit
+    (1000 here) on either side: evaluation either fits comfortably or exhausts the stack on every
+    path; whichever exception that gives, every entry point must give the same one."""
+    for n in (300, 3000, 6000):
+        yield "$" + ".a" * n, chain_doc(n), False
+        yield "$" + "[*]" * n, chain_doc(3), False
+        yield "$" + "['a']" * n, {}, False
+        yield "$[?@" + ".a" * n + " == 1]", [chain_doc(n)], False
+    for n in (300, 3000):
+        # a document nested beyond the interpreter stack, under a raised max_recursion_depth
+        yield "$..z", chain_doc(n), True
+        yield "$[?@..z]", [chain_doc(n)], True
+        yield "$..[?@.z]", deep_doc(n), True
+
+
+def run_stack(sh):
+    import sys
+
+    class Big(impl.jp.JSONPathEnvironment):
+        max_recursion_depth = 10**6
+
+    big = {k: v for k, v in paths(impl.jp, Big()).items() if k.startswith("env.")}
+    old = sys.getrecursionlimit()
+    sys.setrecursionlimit(1000)
+    try:
+        for q, doc, env_only in stack_cases():
+            table = big if env_only else get_paths()
+            obs = {}
+            for name, fn in table.items():
+                try:
+                    obs[name] = fn(q, doc)
+                except Exception as e:  # noqa: BLE001
+                    obs[name] = ("err", type(e).__name__)
+            sh.states += 1
+            sh.transitions += len(table)
+            sh.traces += len(table)
+            sh.evaluations += 1
+            sh.nontrivial += 1
+            sh.bump("stack_cases_" + ("raising" if obs["env.find"][0] == "err" else "completing"))
+            if env_only:
+                obs = dict(obs, **{"module.find": obs["env.find"]})
+            d = disagreement(obs)
+            if d is not None:
+                sh.violation(violation("entry-points-disagree",
+                                       {"stack_case": q[:40] + ("..." if len(q) > 40 else ""), "query_length": len(q),
+                                        "raised_limit_environment": env_only},
+                                       {"find": list(map(str, d[1]))[:2]},
+                                       {"path": d[0], "observed": list(map(str, d[2]))[:2]}, "disagree:" + d[0]))
+    finally:
+        sys.setrecursionlimit(old)
+    sh.sample({"stack_case": "$" + ".a" * 3 + "... (3000 segments)"}, limit=1)
+    return sh
+
+
 def run_shard(desc):
     sh = Shard(PROPERTY)
+    if desc["part"] == "stack":
+        return run_stack(sh)
     docs = documents(desc["tier"])
     for q in queries(desc):
         sh.states += 1
